@@ -110,8 +110,11 @@ func (b bag) String() string {
 }
 
 // expectedBag lists what the EBNF of one production must contain, computed from the IR.
-func expectedBag(g *gram.Grammar, prefix string, e *gram.Expr, b bag) {
+func expectedBag(g *gram.Grammar, prefix string, p *gram.Prod, e *gram.Expr, b bag) {
 	switch e.Kind {
+	case gram.KPars:
+		// a production implemented by user code is referred to by its type name and defined nowhere
+		b.add("prod", userProductionName(p.Fields[e.Field].Kind))
 	case gram.KLit:
 		b.add("lit", e.S)
 	case gram.KRef:
@@ -136,9 +139,24 @@ func expectedBag(g *gram.Grammar, prefix string, e *gram.Expr, b bag) {
 		}
 	}
 	for _, k := range e.Kids {
-		expectedBag(g, prefix, k, b)
+		expectedBag(g, prefix, p, k, b)
 	}
 }
+
+// userProductionName is the EBNF name of the user-implemented production behind a field kind.
+func userProductionName(k gram.FKind) string {
+	switch k {
+	case gram.FParsR:
+		return "PTokR"
+	case gram.FParsN:
+		return "PNest"
+	case gram.FCust, gram.FCusts:
+		return "PI"
+	}
+	return "PTok"
+}
+
+var userProductions = map[string]bool{"PTok": true, "PTokR": true, "PNest": true, "PI": true}
 
 func actualBag(e *ebnf.Expression, b bag, refs map[string]int) error {
 	for _, seq := range e.Alternatives {
@@ -295,6 +313,14 @@ func checkC14(r *vstat.Run, c *C14Case, build func() (string, error)) (msg, sig 
 	}
 	if err != nil {
 		r.Count("build_failed_left_to_C19")
+		why := err.Error()
+		if i := strings.LastIndex(why, ": "); i >= 0 {
+			why = why[i+2:]
+		}
+		if len(why) > 48 {
+			why = why[:48]
+		}
+		r.Count("build_failed: " + why)
 		return "", ""
 	}
 	if i := strings.Index(text, "VERIF-STRING-CHANGED"); i >= 0 {
@@ -348,6 +374,9 @@ func checkC14(r *vstat.Run, c *C14Case, build func() (string, error)) (msg, sig 
 		bodies[p.Production] = b
 	}
 	for name := range refs {
+		if userProductions[name] {
+			continue // implemented by user code: referenced, never defined
+		}
 		if defined[name] != 1 {
 			return fmt.Sprintf("production %s is referenced but defined %d times%s", name, defined[name], desc()), "defined-once"
 		}
@@ -369,7 +398,7 @@ func checkC14(r *vstat.Run, c *C14Case, build func() (string, error)) (msg, sig 
 	}
 	for p := range prods {
 		b := bag{}
-		expectedBag(c.G, prefix, c.G.Prods[p].Expr, b)
+		expectedBag(c.G, prefix, c.G.Prods[p], c.G.Prods[p].Expr, b)
 		want[gram.ProdName(prefix, p)] = b
 	}
 	for name, wb := range want {
